@@ -186,6 +186,13 @@ _txt('prefalt', [
     Rule('start', [[Opt(L('x')), Opt(T('END'))]]),
 ], [Term('END', ('re', r'z|zz'))], tags={'dyn', 'finding'})
 
+# one-symbol alternatives of a ?rule that do not hand a child through: a filtered token, an inlined rule with 0 or >= 2 children
+_txt('meta1', [
+    Rule('start', [[Plus(N('item'))]]),
+    Rule('?item', [[L('@')], [N('_pair')], [T('NAME')]]),
+    Rule('_pair', [[L('<'), Star(T('NAME')), L('>')]]),
+], [Term('NAME', ('re', '[a-z]')), Term('WS', ('re', r'[ \n]+'))], ignore=['WS'], tags={'lalr', 'unamb', 'nl'})
+
 # anonymous literals whose conventional names (PLUS, COMMA) are taken by user terminals with other patterns
 _txt('anoncollide', [
     Rule('start', [[Plus(Grp([T('PLUS'), L('+')], [T('COMMA'), L(',')]))]]),
